@@ -364,7 +364,7 @@ func (m *Multi) Subseq(start, end int) (*Multi, error) {
 	var ns []seq.Sequence
 
 	for _, r := range m.Seq {
-		rs := reflect.New(reflect.TypeOf(r)).Interface().(sequtils.Sliceable)
+		rs := r.New().(sequtils.Sliceable)
 		err := sequtils.Truncate(rs, r, start, end)
 		if err != nil {
 			return nil, err
